@@ -16,6 +16,8 @@ use tower_resilience_hedge::{HedgeError, HedgeLayer};
 
 #[derive(Clone, Debug, Serialize, Deserialize, PartialEq)]
 pub enum Delay {
+    /// microseconds, below one millisecond (still latency mode, not parallel mode)
+    FixedUs(u64),
     Fixed(u64),
     Immediate,
     /// per-attempt table (attempt 1.. ), every entry >= 1ms
@@ -38,7 +40,8 @@ pub struct Scn {
 
 pub fn gen(rng: &mut Rng) -> Scn {
     let max = rng.range(1, 4) as u32;
-    let delay = match rng.below(5) {
+    let delay = match rng.below(6) {
+        5 => Delay::FixedUs(*rng.pick(&[1u64, 500, 800])),
         0 => Delay::Immediate,
         1 => Delay::Fixed(0),
         // u64::MAX stands for Duration::MAX ("never hedge" written as a delay)
@@ -89,6 +92,7 @@ pub fn valid(s: &Scn) -> bool {
         })
         && match &s.delay {
             Delay::Fixed(d) => *d <= 100 || *d == u64::MAX,
+            Delay::FixedUs(d) => *d >= 1 && *d < 1000,
             Delay::Immediate => true,
             Delay::Table(t) => t.len() >= 4 && t.len() <= 6 && t.iter().all(|d| *d >= 1 && *d <= 100),
         }
@@ -96,12 +100,19 @@ pub fn valid(s: &Scn) -> bool {
         && s.knobs.jumps.iter().all(|j| j.0 <= 300 && j.1 <= 200)
 }
 
+/// configured delay before attempt `attempt`, in microseconds
 fn delay_for(d: &Delay, attempt: usize) -> u64 {
     match d {
+        Delay::FixedUs(x) => return *x,
+        _ => {}
+    }
+    (match d {
+        Delay::FixedUs(_) => 0,
         Delay::Fixed(x) => *x,
         Delay::Immediate => 0,
         Delay::Table(t) => t[(attempt - 1).min(t.len() - 1)],
-    }
+    })
+    .saturating_mul(1000)
 }
 
 pub fn run(s: &Scn, ctx: &mut RunCtx) -> RunOutput {
@@ -117,6 +128,7 @@ pub fn run(s: &Scn, ctx: &mut RunCtx) -> RunOutput {
         let mut b = HedgeLayer::builder().max_hedged_attempts(scn.max as usize);
         b = match &scn.delay {
             Delay::Fixed(d) => b.delay(if *d == u64::MAX { Duration::MAX } else { Duration::from_millis(*d) }),
+            Delay::FixedUs(d) => b.delay(Duration::from_micros(*d)),
             Delay::Immediate => b.no_delay(),
             Delay::Table(t) => {
                 let t = t.clone();
@@ -175,7 +187,7 @@ pub fn run(s: &Scn, ctx: &mut RunCtx) -> RunOutput {
                     world::violation("C12.spacing", "parallel", format!("call {}: parallel mode but attempt {} started at {}us, primary at {}us", i, j, mine[j].start_us, mine[0].start_us));
                 }
             } else {
-                let d = delay_for(&s.delay, j).saturating_mul(1000);
+                let d = delay_for(&s.delay, j);
                 if mine[j].start_us < mine[j - 1].start_us.saturating_add(d) {
                     world::violation("C12.spacing", "too_early", format!("call {}: attempt {} started at {}us, previous at {}us, configured delay {}us", i, j, mine[j].start_us, mine[j - 1].start_us, d));
                 }
